@@ -101,7 +101,7 @@ InitQuick ==
 InitThorough ==
     \E b \in BPs, hw \in HW(0..5), x \in ExoThorough, r \in BOOLEAN :
         \E ic \in ICChoices(BP(b)) :
-            LET c == Mk(b, hw, x, ic, r) IN (IsLate(c) => c.reduce) /\ StartWith(c)
+            LET c == Mk(b, hw, x, ic, r) IN (IsLate(c) => (c.reduce /\ c.late # c.horizon + 1)) /\ StartWith(c)
 
 NoConfigs == {}
 
